@@ -237,6 +237,8 @@ def _normalise_sign_free(d: Rat, positive) -> Rat:
 
 
 def make_cmp(rel, d: Rat):
+    if rel in ('==', '!=') and not d.d.is_const():
+        d = Rat(d.n)        # a quotient that was evaluated vanishes exactly when its numerator does
     d = _normalise_sign_free(d, POSITIVE_ATOMS)
     return G('cmp', (rel, repr(d)), True, d)
 
@@ -452,6 +454,8 @@ class SX:
         self.call_hook = None              # callable(sx, call_node, func_value, args, kwargs, state, frame) -> list[(State,V)] | None
         self.nstates = 0
         self.div_zero_sites = []
+        self.div_sites = []                # (BinOp node, denominator term, guards) of every division (track_div_zero)
+        self.guard_sources = {}            # (kind, key) of a guard -> source texts of the tests that produced it
         self.variable_kinds = {}           # recorded-variable name -> quantity kind (typing of time_variables[...])
         self._field_types = {}
         self.trace_calls = []
@@ -872,8 +876,21 @@ class SX:
             elif t is False:
                 fa.append(s)
             else:
+                self.guard_sources.setdefault((t.kind, t.key), set()).add(test)
+                self.guard_sources.setdefault((t.negate().kind, t.negate().key), set()).add(test)
                 a = s.with_guard(t)
                 b = s.with_guard(t.negate())
+                a = self.abs_refine(a) if a is not None else None
+                b = self.abs_refine(b) if b is not None else None
+                if self.track_div_zero:
+                    for x in (a, b):          # the test was taken on this path even when its outcome was already implied
+                        if x is not None and x is not s:
+                            x.notes = x.notes + (('tested', test),)
+                    if a is s or b is s:
+                        s2 = s.copy()
+                        s2.notes = s.notes + (('tested', test),)
+                        a = s2 if a is s else a
+                        b = s2 if b is s else b
                 if a is not None:
                     if narrow and narrow[1]:
                         a = self.narrow(a, narrow[0], narrow[1])
@@ -881,6 +898,34 @@ class SX:
                 if b is not None:
                     fa.append(b)
         return tr, fa, rs
+
+    def abs_refine(self, s: State):
+        """case analysis on |x| atoms occurring in comparison guards: if only one sign of x is consistent with the
+        guards, the guards with |x| replaced accordingly are added as derived facts; None if neither is"""
+        atoms = sorted({a for g in s.guards if g.kind == 'cmp' for a in g.rat.atoms()
+                        if a in self.ctx.defs and self.ctx.defs[a][0] == 'abs'})
+        for a in atoms:
+            x = self.ctx.defs[a][1][0]
+            consistent = []
+            for repl, case in ((x, make_cmp('<=', -x)), (-x, make_cmp('<', x))):
+                st = State()
+                for g in s.guards + (case,):
+                    if g.kind == 'cmp' and a in g.rat.atoms():
+                        g = make_cmp(g.key[0], self.ctx.reduce(self.ctx.subst(g.rat, {a: repl})))
+                    st = st.with_guard(g)
+                    if st is None:
+                        break
+                if st is not None:
+                    consistent.append(st)
+            if not consistent:
+                return None
+            if len(consistent) == 1:
+                have = {(g.kind, g.key, g.pol) for g in s.guards}
+                extra = tuple(g for g in consistent[0].guards if (g.kind, g.key, g.pol) not in have)
+                if extra:
+                    s = s.copy()
+                    s.guards = s.guards + extra
+        return s
 
     def narrow(self, st: State, name, classes):
         """refine the abstract value of local `name` after `isinstance(name, classes)` held"""
@@ -1619,6 +1664,8 @@ class SX:
             rt = r.term if isinstance(r, (N, Q, Dyn)) else None
             if rt is not None and rt.is_zero():
                 return Outcome(st, 'raise', 'ZeroDivisionError', node.lineno)
+            if rt is not None and self.track_div_zero and not rt.is_const():
+                self.div_sites.append((node, rt, tuple(st.guards), tuple(t for k, t in st.notes if k == 'tested')))
         if isinstance(l, Dyn) or isinstance(r, Dyn):
             if isinstance(l, (N, Q, Dyn)) and isinstance(r, (N, Q, Dyn)):
                 return Dyn(self.ctx.reduce(f(l.term, r.term)))
